@@ -10,7 +10,8 @@ from harness import lib, pagegen, c12work
 from harness.props import c01
 
 ASSUMPTIONS = c01.ASSUMPTIONS + [
-    "Note.to_string is run for real on notes rebuilt from the compiled fields; swog.execute / refresh_zoq_file emit exactly these strings joined by newlines",
+    "parts (a)/(b): Note.to_string is run for real on notes rebuilt from the compiled fields; part (c) runs the real db create / "
+    "swog.execute / refresh_zoq_file on an indexed directory",
 ]
 TODAY = c01.TODAY
 OWN = ("body", "zid", "areas", "contexts", "people", "projects", "links", "props")
@@ -44,16 +45,113 @@ def items_of(rng, n):
     return out
 
 
+ODD_PAGE = ("# odd whitespace\n\n"
+            "- heading with a trailing space \n  * bullet under it\n"
+            "o P2 todo whose continuation holds only indentation\n  \n  * after the gap\n"
+            "- double  space inside and a tab-free tail\n"
+            "x done with bullets \n  * one \n  * two\n")
+KIND_WHERES = {"(o | x | - | ~ | < | >)": None, "o": "o", "-": "-", "(o | x)": "ox", "(- | ~ | <)": "-~<"}
+ORDERS = ["", " O none", " O alpha", " O create", " O modify alpha", " O type priority", " O priority"]
+
+
+def real_pipeline(rng, oc):
+    """(c) the texts zorg really emits: swog.execute (ungrouped, every ordering) and refresh_zoq_file on an
+    indexed directory, put under a header / read as the saved-query page, recompiled, compared per ZID."""
+    from freezegun import freeze_time
+    from pathlib import Path
+    from harness import zdir as Z, fc
+    from harness.implrun import write_tree, read_tree
+    today = dt.date(*TODAY)
+    with Z.tmpdir("c12_") as d:
+        files = {"odd.zo": ODD_PAGE,
+                 "gen.zo": pagegen.render(pagegen.gen_page(rng, max_sections=2)),
+                 "sub/more.zo": pagegen.render(pagegen.gen_page(rng, max_sections=1))}
+        write_tree(d, files)
+        with freeze_time(dt.datetime(today.year, today.month, today.day, 12)):
+            try:
+                Z.db_create(d)
+            except Exception as e:  # noqa: BLE001
+                oc.count("c_create_exception_" + type(e).__name__)
+                return True
+            orig = {}
+            for rel, text in read_tree(d).items():
+                if rel.endswith(".zo") and not rel.startswith(".zorg"):
+                    r = fc.compile_text(text, today, False)
+                    if r["status"] != "ok" or r["nerrors"]:
+                        oc.count("c_page_not_wellformed")
+                        return True
+                    for n in r["notes"]:
+                        orig[n["zid"]] = n
+            jobs = []
+            for w, kinds in KIND_WHERES.items():
+                for o in rng.sample(ORDERS, 3):
+                    jobs.append((w, kinds, o))
+            for i, (w, kinds, o) in enumerate(jobs):
+                q = "S note W %s%s G none" % (w, o)
+                want = {z for z, n in orig.items() if kinds is None or (n["todo"][1] if n["todo"] else "-") in kinds}
+                try:
+                    if i % 3 == 2:
+                        zq = Path(d, "zoq", "q%d.zoq" % i)
+                        zq.parent.mkdir(exist_ok=True)
+                        zq.write_text("# %s\n" % q)
+                        from zorg.service import swog
+                        Z.fresh_process()
+                        with quiet_():
+                            swog.refresh_zoq_file(Path(d), Z.db_url(d), zq)
+                        # the page as written has no final newline (a page-level matter the property does not speak of,
+                        # and zorg never compiles *.zoq pages itself): the rendered selection is judged with one
+                        page2, how = zq.read_text(), "refresh_zoq_file"
+                        if not page2.endswith("\n"):
+                            page2 += "\n"
+                    else:
+                        page2, how = "# RESULTS\n\n" + Z.execute(d, q) + "\n", "swog.execute under a header"
+                except Exception as e:  # noqa: BLE001
+                    oc.spec_fail.append(({"files": files, "query": q}, "%s raised %s" % (how if 'how' in dir() else 'query', type(e).__name__),
+                                         "the query renders", None))
+                    return False
+                oc.evaluations += 1
+                r2 = fc.compile_text(page2, today, False)
+                bad = None
+                if r2["status"] != "ok" or r2["nerrors"] or r2["has_errors"]:
+                    bad = {"recompiled": {k: r2[k] for k in ("status", "nerrors", "has_errors")}}
+                else:
+                    got = {n["zid"]: n for n in r2["notes"]}
+                    if set(got) != want or len(r2["notes"]) != len(want):
+                        bad = {"notes": [sorted(want - set(got)), sorted(z for z in set(got) - want if z)], "n": [len(want), len(r2["notes"])]}
+                    else:
+                        for z in want:
+                            dd = {k: v for k, v in same_core(orig[z], got[z]).items() if k in ("body", "zid", "kind", "priority")}
+                            if dd and not trigger_of(orig[z]):
+                                bad = {"zid": z, "diff[original,recompiled]": dd}
+                                break
+                if bad:
+                    oc.spec_fail.append(({"files": files, "query": q, "how": how}, dict(bad, rendered=page2[:3000]),
+                                         "the emitted text under a header is a valid page whose notes are exactly the selected notes", None))
+                    return False
+                oc.count("c_" + how.split()[0])
+                oc.nontriv(q)
+    return True
+
+
+def quiet_():
+    from harness.implrun import quiet
+    return quiet()
+
+
 def run(oc, tier, seed):
     rng = random.Random(seed)
     pool = lib.pool()
     eng = lib.Engine()
     n_items, n_pages = (500, 40) if tier == "quick" else (12000, 800)
+    n_dirs = 2 if tier == "quick" else 40
     oc.rule = ("(a) generated items of every kind x priority x identity form x word forms x continuation lines, compiled alone "
                "under a header, rendered with the real Note.to_string, recompiled: same kind, ZID, body, own tags/links/"
                "properties, dates when a ZID is present, priority unless done/cancelled; to_string text vs the Coq model; "
                "(b) all notes of generated pages rendered ungrouped (file order, reversed, alphabetical) under a header must "
-               "recompile to exactly those notes; non-trivial = multi-line item or item with priority")
+               "recompile to exactly those notes; (c) indexed directories (generated pages + a page with inner trailing spaces and "
+               "indentation-only continuation lines): the real swog.execute text (5 kind filters x 3 of 7 orderings, ungrouped) under "
+               "a header and the real refresh_zoq_file page recompile to exactly the selected notes, same kind/ZID/body/priority; "
+               "non-trivial = multi-line item or item with priority, or a real query")
     corpus = [json.load(open(f))["item"] for f in sorted(glob.glob(os.path.join(lib.VERIF, "corpus", "C12", "*.json")))]
     items = corpus + items_of(rng, n_items)
     # irregular spacing after the prefix and Pn-leading bodies
@@ -114,6 +212,10 @@ def run(oc, tier, seed):
                                      "an ungrouped rendering under a header is a valid page with exactly those notes", None))
                 break
             oc.count("pages_roundtripped")
+    if not stop and not any(f[3] is None for f in oc.spec_fail):
+        for _ in range(n_dirs):
+            if not real_pipeline(rng, oc):
+                break
     oc.samples.extend(items[len(corpus):len(corpus) + 3])
     eng.close()
 
